@@ -21,9 +21,9 @@ EXPLANATION = (
     'stripped only from current-protocol READ replies and values are delivered only for solicited replies or value-changed notifications; '
     'R6 every one-shot reply closure tests channel, command and the 16-bit variable id of its own request before consuming the reply, and '
     'the request carries the same command and id; R7 decode: id at id_index, value after it, one string stored and passed once to each of '
-    'the three fan-outs; R8 requests travel through one FIFO queue with a single consumer; R10 the extended-type fetcher follows the same protocol: untimed acquire and published id before each send, an answer is accepted only as MISC_GET_EXTENDED_TYPE reply for the published id, the id is forgotten before the lock is released, one counter step per answer; R12 the parameter type table (size, floatness, signedness per type code) and the split of the metadata byte: type = low nibble (every row of the table reachable), extended = bit 4, read-only = bit 6, RW/RO numbered 0/1 as in stored TOC caches (shared with C03.R6); R13 the extended-type fetcher is built per refresh from the current table; R11 Caller.call hands the value once to every callable of a snapshot of the list (shared with C07.R2).')
+    'the three fan-outs; R8 requests travel through one FIFO queue with a single consumer; R10 the extended-type fetcher follows the same protocol: untimed acquire and published id before each send, an answer is accepted only as MISC_GET_EXTENDED_TYPE reply for the published id, the id is forgotten before the lock is released, one counter step per answer; R12 the parameter type table (size, floatness, signedness per type code) and the split of the metadata byte: type = low nibble (every row of the table reachable), extended = bit 4, read-only = bit 6, RW/RO numbered 0/1 as in stored TOC caches (shared with C03.R6); R13 the extended-type fetcher is built per refresh from the current table; R14 a request that was answered is not transmitted again: the retry path re-arms and transmits only while its pattern is pending, decided under the send lock (shared with C10.R1/R2/R5); R11 Caller.call hands the value once to every callable of a snapshot of the list (shared with C07.R2).')
 ASSUMPTIONS = ['queue.Queue is FIFO and thread safe', 'the device echoes the variable id in bytes 1..2 of MISC replies']
-FLOORS = {'R9': 5, 'R1': 3, 'R2': 2, 'R3': 6, 'R4': 11, 'R5': 4, 'R6': 16, 'R7': 7, 'R8': 4, 'R10': 14, 'R11': 2, 'R12': 17, 'R13': 1}
+FLOORS = {'R9': 5, 'R1': 3, 'R2': 2, 'R3': 6, 'R4': 11, 'R5': 4, 'R6': 16, 'R7': 7, 'R8': 4, 'R10': 14, 'R11': 2, 'R12': 17, 'R13': 1, 'R14': 8}
 
 
 def param_lookup_rule(ctx, rule):
@@ -317,6 +317,8 @@ def check(ctx):
     # ---- R12: the type table that gives every parameter its struct format (shared rule, see C03.R6) -----
     param_type_table_rules(ctx, 'R12')
     param_metadata_rules(ctx, 'R12')
+    from .c10 import retransmission_rules
+    retransmission_rules(ctx, 'R14', 'R14', 'R14')      # an answered write is never transmitted again (an old value after a newer one): retry decided under the send lock (shared with C10.R1/R2/R5)
     generation_switch_rules(ctx, 'R3')      # index width: Param, its updater and the table fetcher switch generation at the same version (shared with C03.R5)
 
     # ---- R13: the extended-type fetcher works on the table of the current connection ----------------------
